@@ -1,8 +1,198 @@
-/- driver ops for the Rules model (filled in when the module is ported) -/
+/-
+Driver ops for the Rules model (C11).  The rule is space separated, so it occupies all the
+arguments after the tape.
+
+  mkrule <c1> <c2> <c3> <c4>      make_rule; each <ci> = "l,l,l;r,r,r" (u64 counts, nearest first,
+                                  either side may be empty: ";3,4", "5;", ";")
+      -> none | <rule>
+  countapps <tape> <rule>         ApplyRule::count_apps on a BasicTape
+      -> none | <times>,<L|R>,<index>,<minres>
+  applyrule <tape> <rule>         ApplyRule::apply_rule on a BasicTape
+      -> <none|times> -> <tape after>          (the tape is printed also when the result is none)
+
+  <tape> = <scan>|<colour>^<count>,...|<colour>^<count>,...     left blocks nearest first, then
+           right blocks nearest first; every block is written colour^count (also count 0 and 1)
+  <rule> = "-" (empty) or entries "<L|R><index>:<op>" separated by one space, printed in map order
+           (all L before all R, then by index); <op> = "+<d>" (d >= 0) | "-<|d|>" (d < 0) for
+           Plus(d), "*<q>+<r>" / "*<q>-<|r|>" for Mult((q, r)).  On input the entries may come in
+           any order and may repeat a key (later entry wins, as with BTreeMap::insert).
+
+other outputs: PANIC (index out of range, Mult op, assert), limit:overflow (never expected),
+  BAD-ARG (unparsable / out of u64, usize, i32 range),
+  BAD-TAPE (a shape the real tape cannot be stepped into: two adjacent blocks of one colour on a
+  side, or colour 0 in the farthest block of a side).
+-/
 import BB.Model.Instrs
+import BB.Model.Tape
+import BB.Model.Rules
 
 namespace BB.Driver.OpsRules
 
-def handle (_op : String) (_args : List String) (_text : String) : Option String := none
+open BB
+
+/-! ### parsing -/
+
+def natOfDigits (cs : List Char) : Option Nat :=
+  if cs.isEmpty || !cs.all Char.isDigit then none
+  else some (cs.foldl (fun acc c => acc * 10 + (c.toNat - 48)) 0)
+
+/-- u64 / usize -/
+def parseU64 (cs : List Char) : Option Nat :=
+  match natOfDigits cs with
+  | some n => if n ≤ countMax then some n else none
+  | none => none
+
+/-- split a char list at every occurrence of `sep` (like `str::split`: "" -> [""]) -/
+def splitChars (sep : Char) (cs : List Char) : List (List Char) :=
+  let (cur, acc) := cs.foldl (fun (st : List Char × List (List Char)) c =>
+    if c == sep then ([], st.1.reverse :: st.2) else (c :: st.1, st.2)) ([], [])
+  (cur.reverse :: acc).reverse
+
+def allSome {α : Type} : List (Option α) → Option (List α)
+  | [] => some []
+  | none :: _ => none
+  | some a :: rest => match allSome rest with
+    | some r => some (a :: r)
+    | none => none
+
+/-- "a,b,c" -> list; "" -> [] -/
+def parseList {α : Type} (f : List Char → Option α) (cs : List Char) : Option (List α) :=
+  if cs.isEmpty then some [] else allSome ((splitChars ',' cs).map f)
+
+def parseCounts (s : String) : Option Counts :=
+  match splitChars ';' s.toList with
+  | [l, r] => match parseList parseU64 l, parseList parseU64 r with
+    | some l, some r => some (l, r)
+    | _, _ => none
+  | _ => none
+
+def parseBlock (cs : List Char) : Option Block :=
+  match splitChars '^' cs with
+  | [c, n] => match parseU64 c, parseU64 n with
+    | some c, some n => some ⟨c, n⟩
+    | _, _ => none
+  | _ => none
+
+def parseTape (s : String) : Option Tape :=
+  match splitChars '|' s.toList with
+  | [sc, l, r] => match parseU64 sc, parseList parseBlock l, parseList parseBlock r with
+    | some sc, some l, some r => some ⟨sc, l, r⟩
+    | _, _, _ => none
+  | _ => none
+
+/-- sign character + digits, within i32 -/
+def parseSigned (cs : List Char) : Option Int :=
+  match cs with
+  | '+' :: ds => match natOfDigits ds with
+    | some n => diffTryFrom (n : Int)
+    | none => none
+  | '-' :: ds => match natOfDigits ds with
+    | some n => diffTryFrom (-(n : Int))
+    | none => none
+  | _ => none
+
+/-- optional '-' + digits, within i32 -/
+def parseQuot (cs : List Char) : Option Int :=
+  match cs with
+  | '-' :: _ => parseSigned cs
+  | _ => parseSigned ('+' :: cs)
+
+def parseOp (cs : List Char) : Option Op :=
+  match cs with
+  | '*' :: rest =>
+    -- quotient: leading optional '-', digits; remainder: from the next sign on
+    let (neg, body) := match rest with
+      | '-' :: b => (true, b)
+      | b => (false, b)
+    let qd := body.takeWhile Char.isDigit
+    let rd := body.dropWhile Char.isDigit
+    match parseQuot (if neg then '-' :: qd else qd), parseSigned rd with
+    | some q, some r => some (.mult q r)
+    | _, _ => none
+  | _ => match parseSigned cs with
+    | some d => some (.plus d)
+    | none => none
+
+def parseEntry (s : String) : Option (Index × Op) :=
+  match s.toList with
+  | side :: rest =>
+    if side != 'L' && side != 'R' then none
+    else
+      let idx := rest.takeWhile (· != ':')
+      match rest.dropWhile (· != ':') with
+      | ':' :: op => match parseU64 idx, parseOp op with
+        | some i, some o => some ((side == 'R', i), o)
+        | _, _ => none
+      | _ => none
+  | [] => none
+
+def parseRule (args : List String) : Option Rule :=
+  match args with
+  | ["-"] => some []
+  | [] => none
+  | _ => match allSome (args.map parseEntry) with
+    | some es => some (es.foldl (fun (r : Rule) e => r.insert e.1 e.2) [])
+    | none => none
+
+/-! ### printing -/
+
+def showSigned (d : Int) : String := if d ≥ 0 then s!"+{d}" else s!"{d}"
+
+def showOp : Op → String
+  | .plus d => showSigned d
+  | .mult q r => s!"*{q}{showSigned r}"
+
+def showIndex (i : Index) : String := s!"{if i.1 then "R" else "L"}{i.2}"
+
+def showRule (r : Rule) : String :=
+  if r.isEmpty then "-" else " ".intercalate (r.map fun (i, o) => s!"{showIndex i}:{showOp o}")
+
+def showBlocks (s : Span) : String := ",".intercalate (s.map fun b => s!"{b.color}^{b.count}")
+
+def showTape (t : Tape) : String := s!"{t.scan}|{showBlocks t.lspan}|{showBlocks t.rspan}"
+
+def showErr : PErr → String
+  | .panic _ => "PANIC"
+  | .overflow _ => "limit:overflow"
+
+/-! ### tape shapes the real `BasicTape` can be stepped into -/
+
+def spanShapeOk : Span → Bool
+  | [] => true
+  | [b] => b.color != 0
+  | b :: c :: rest => b.color != c.color && spanShapeOk (c :: rest)
+
+def tapeShapeOk (t : Tape) : Bool := spanShapeOk t.lspan && spanShapeOk t.rspan
+
+def withTapeRule (tape : String) (rule : List String) (f : Tape → Rule → String) : String :=
+  match parseTape tape, parseRule rule with
+  | some t, some r => if tapeShapeOk t then f t r else "BAD-TAPE"
+  | _, _ => "BAD-ARG"
+
+def handle (op : String) (args : List String) (_text : String) : Option String :=
+  match op, args with
+  | "mkrule", [a, b, c, d] =>
+    some <|
+      match parseCounts a, parseCounts b, parseCounts c, parseCounts d with
+      | some a, some b, some c, some d =>
+        match makeRule a b c d with
+        | .error e => showErr e
+        | .ok none => "none"
+        | .ok (some r) => showRule r
+      | _, _, _, _ => "BAD-ARG"
+  | "countapps", tape :: rule =>
+    some <| withTapeRule tape rule fun t r =>
+      match countApps t r with
+      | .error e => showErr e
+      | .ok none => "none"
+      | .ok (some (times, pos, minRes)) =>
+        s!"{times},{if pos.1 then "R" else "L"},{pos.2},{minRes}"
+  | "applyrule", tape :: rule =>
+    some <| withTapeRule tape rule fun t r =>
+      match applyRule t r with
+      | .error e => showErr e
+      | .ok (none, t') => s!"none -> {showTape t'}"
+      | .ok (some times, t') => s!"{times} -> {showTape t'}"
+  | _, _ => none
 
 end BB.Driver.OpsRules
